@@ -153,7 +153,13 @@ func runClientLifeCase(c cfg, seed uint64, nconn int, stopTwice, cbShutdown bool
 	// datagrams to the connected UDP sockets: one OnTraffic each, echo comes back
 	if udpSrv != nil && len(udpConns) > 0 {
 		for _, uc := range udpConns {
-			la := uc.LocalAddr().(*net.UDPAddr)
+			var la *net.UDPAddr
+			if cs := mon.stateOf(uc); cs != nil {
+				la, _ = net.ResolveUDPAddr("udp", cs.local)
+			}
+			if la == nil {
+				continue
+			}
 			for k := 0; k < 3; k++ {
 				_, _ = udpSrv.WriteToUDP([]byte(fmt.Sprintf("dgram-%d", k)), la)
 			}
@@ -171,9 +177,10 @@ func runClientLifeCase(c cfg, seed uint64, nconn int, stopTwice, cbShutdown bool
 		// an empty datagram from the peer: if the framework takes it as the end of the connection, that close is
 		// peer-induced, so OnClose must carry an error (checked in onClose: only the remote cause is armed)
 		if uc := udpConns[0]; uc != nil {
-			if cs, _ := ctxState(uc); cs != nil {
+			if cs := mon.stateOf(uc); cs != nil {
 				cs.armedRemote.Store(true)
-				_, _ = udpSrv.WriteToUDP([]byte{}, uc.LocalAddr().(*net.UDPAddr))
+				la, _ := net.ResolveUDPAddr("udp", cs.local)
+				_, _ = udpSrv.WriteToUDP([]byte{}, la)
 				if ok, _ := waitCondQuick(500*time.Millisecond, func() bool { return atomic.LoadInt32(&cs.state) == 2 }); ok {
 					keys["client|udp|empty-datagram-closes-the-connection"] = struct{}{}
 				} else {
@@ -185,7 +192,7 @@ func runClientLifeCase(c cfg, seed uint64, nconn int, stopTwice, cbShutdown bool
 	time.Sleep(time.Duration(r.Intn(5)) * time.Millisecond)
 	// close a third of the connections explicitly (local cause), a third from the peer side
 	for i, gc := range conns {
-		cs, _ := ctxState(gc)
+		cs := mon.stateOf(gc)
 		switch i % 3 {
 		case 0:
 			if cs != nil {
@@ -214,7 +221,7 @@ func runClientLifeCase(c cfg, seed uint64, nconn int, stopTwice, cbShutdown bool
 	if cbShutdown {
 		shutdownArmed.Store(true)
 		for _, gc := range conns {
-			if cs, _ := ctxState(gc); cs != nil && atomic.LoadInt32(&cs.state) == 1 {
+			if cs := mon.stateOf(gc); cs != nil && atomic.LoadInt32(&cs.state) == 1 {
 				if gc.Wake(nil) == nil {
 					break
 				}
